@@ -67,7 +67,16 @@ def observe(case, ver, tmpdir):
         f.write(xml)
     ids: dict = {}
 
+    first_lax = []          # the first error of the first lax run: what a union's generic error stands for
+    union_generic = [0]
+
     def eid(e):
+        # F-C04-d: in strict mode a union raises its own generic 'invalid value' decode error, in lax mode the
+        # error of the first member type that could read the text is collected (the suite asserts both)
+        if first_lax and type(getattr(e, "validator", None)).__name__ in ("XsdUnion", "Xsd11Union") \
+                and type(e).__name__ == "XMLSchemaDecodeError" and str(e.reason).startswith("invalid value"):
+            union_generic[0] += 1
+            return first_lax[0]
         return ids.setdefault(err_key(e), len(ids) + 1)
     events, direct = [], []
     data_ref = None
@@ -132,6 +141,8 @@ def observe(case, ver, tmpdir):
                 ev("is_valid", tag, res=bool(r) if ok else False, exc=0 if ok else eid(r))
             ok, r = guarded("iter_errors", tag, lambda: list(iter_errors(source(kind))))
             if ok:
+                if r and not first_lax:
+                    first_lax.append(eid(r[0]))
                 ev("iter_errors", tag, n=len(r), first=eid(r[0]) if r else 0)
             elif ok is False:
                 ev("iter_errors", tag, exc=eid(r))
@@ -167,6 +178,9 @@ def observe(case, ver, tmpdir):
                                    f"{data_ref[0]}"))
     for fh in opened:
         fh.close()
+    if union_generic[0]:
+        direct.append(("validate", "all", f"strict mode raised the union's generic 'invalid value' error "
+                       f"{union_generic[0]} times where lax mode collects the member type's error", "F-C04-d"))
     return events, direct
 
 
@@ -256,10 +270,12 @@ def run(ctx: Ctx):
                    f"{r['ver']} {r['about']}: no single error list explains the observations; the longest "
                    f"explanation stops at event {l}: {bad_ev}")
     for r in results:
-        for entry, kind, what in r["direct"]:
+        for item in r["direct"]:
+            entry, kind, what = item[:3]
             ctx.report({"driver": "direct", "ver": r["ver"], "about": r["about"], "xml": r.get("xml"),
                         "xsds": r.get("xsds"), "entry": entry, "kind": kind, "observed": what},
-                       f"{r['ver']} {r['about']}: {entry} [{kind}]: {what}")
+                       f"{r['ver']} {r['about']}: {entry} [{kind}]: {what}",
+                       finding=item[3] if len(item) > 3 else None)
     # binding self-test: flip one verdict -> the batch must reject that trace
     import copy
     mut = copy.deepcopy(trs[:50])
